@@ -1,12 +1,241 @@
-//! C06 - not built yet.
-use crate::run::Ctx;
-use serde_json::Value;
+//! C06 - times are integers mod 24 h, instants integers on the epoch line.
 
-pub fn run(_ctx: &mut Ctx) {
-    eprintln!("property C06 has no check yet");
-    std::process::exit(2);
+use crate::chk;
+use crate::conv::*;
+use crate::gen;
+use crate::refm::civil::*;
+use crate::refm::dur::{balance_time, reported_valid, Dur, U};
+use crate::run::*;
+use proptest::prelude::*;
+use serde::{Deserialize, Serialize};
+use serde_json::Value;
+use temporal_rs::error::ErrorKind;
+use temporal_rs::Instant;
+
+const DAY: i128 = NS_PER_DAY;
+
+#[derive(Serialize, Deserialize, Debug, Clone, Copy, PartialEq, Eq)]
+pub enum Op {
+    TimeAdd,
+    TimeSubtract,
+    InstantAdd,
+    InstantSubtract,
+    TimeUntil,
+    TimeSince,
+    InstantUntil,
+    InstantSince,
+    EpochMs,
+    InstantAddDateUnits,
 }
 
-pub fn replay(_ctx: &mut Ctx, _sub: &str, _case: &Value) -> bool {
-    false
+#[derive(Serialize, Deserialize, Debug, Clone)]
+pub struct Case {
+    pub op: Op,
+    pub a: i128,
+    pub b: i128,
+    pub dur: Dur,
+    pub largest: Option<U>,
+}
+pub struct Sub;
+
+impl SubCheck for Sub {
+    type Case = Case;
+    fn name(&self) -> &'static str {
+        "ops"
+    }
+    fn eval(&self, c: &Case) -> Outcome {
+        let mut o = Outcome::pass();
+        let total = c.dur.time_ns();
+        match c.op {
+            Op::TimeAdd | Op::TimeSubtract => {
+                let eff = if c.op == Op::TimeAdd { total } else { -total };
+                let want = (c.a + eff).rem_euclid(DAY);
+                let wraps = (c.a + eff).div_euclid(DAY) != 0;
+                o = o.class("time.add").nontrivial(wraps || total.abs() >= (1i128 << 63));
+                if wraps {
+                    o = o.class("wraps-midnight");
+                }
+                if total.abs() >= (1i128 << 63) {
+                    o = o.class("|total|>=2^63ns");
+                }
+                let t = plain_time(c.a).expect("valid time");
+                let d = match duration_from_dur(&c.dur) {
+                    Ok(d) => d,
+                    Err(e) => return o.fail("C06/time.add/duration-construct", "valid", err_str(&e)),
+                };
+                let r = if c.op == Op::TimeAdd { t.add(&d) } else { t.subtract(&d) };
+                match r {
+                    Ok(r) => chk!(o, time_ns(&r) == want, "C06/time.add/mismatch", want, time_ns(&r)),
+                    Err(e) => o = o.fail("C06/time.add/error", want.to_string(), err_str(&e)),
+                }
+            }
+            Op::InstantAdd | Op::InstantSubtract => {
+                let eff = if c.op == Op::InstantAdd { total } else { -total };
+                let want = c.a + eff;
+                let ok = instant_in_range(want);
+                let near = (want.abs() - MAX_INSTANT).abs() <= 1;
+                o = o.class("instant.add").nontrivial(total.abs() >= (1i128 << 63) || near || !ok);
+                if near {
+                    o = o.class("within-1ns-of-limit");
+                }
+                if !ok {
+                    o = o.class("out-of-range");
+                }
+                if total.abs() >= (1i128 << 63) {
+                    o = o.class("|total|>=2^63ns");
+                }
+                let i = Instant::try_new(c.a).expect("valid instant");
+                let d = match duration_from_dur(&c.dur) {
+                    Ok(d) => d,
+                    Err(e) => return o.fail("C06/instant.add/duration-construct", "valid", err_str(&e)),
+                };
+                let r = if c.op == Op::InstantAdd { i.add(d) } else { i.subtract(d) };
+                match r {
+                    Ok(r) => {
+                        if !ok {
+                            return o.fail("C06/instant.add/accepted-out-of-range", "RangeError", r.as_i128().to_string());
+                        }
+                        chk!(o, r.as_i128() == want, "C06/instant.add/mismatch", want, r.as_i128());
+                    }
+                    Err(e) => {
+                        if ok || e.kind() != ErrorKind::Range {
+                            o = o.fail("C06/instant.add/error", want.to_string(), err_str(&e));
+                        }
+                    }
+                }
+            }
+            Op::InstantAddDateUnits => {
+                // any non-zero year/month/week/day field is refused
+                o = o.class("instant.add-date-units").nontrivial(true);
+                let i = Instant::try_new(c.a).expect("valid instant");
+                let d = match duration_from_dur(&c.dur) {
+                    Ok(d) => d,
+                    Err(e) => return o.fail("C06/instant.add/duration-construct", "valid", err_str(&e)),
+                };
+                for (r, nm) in [(i.add(d), "add"), (i.subtract(d), "subtract")] {
+                    match r {
+                        Err(e) if e.kind() == ErrorKind::Range => {}
+                        other => return o.fail(format!("C06/instant.{nm}/date-units-accepted"), "RangeError", format!("{:?}", other.map(|x| x.as_i128()).map_err(|e| err_str(&e)))),
+                    }
+                }
+            }
+            Op::TimeUntil | Op::TimeSince | Op::InstantUntil | Op::InstantSince => {
+                let is_time = matches!(c.op, Op::TimeUntil | Op::TimeSince);
+                let diff = match c.op {
+                    Op::TimeUntil | Op::InstantUntil => c.b - c.a,
+                    _ => c.a - c.b,
+                };
+                // default largest: hour for times, second for instants
+                let largest = c.largest.unwrap_or(if is_time { U::Hour } else { U::Second });
+                let want = balance_time(diff, largest);
+                o = o.class(if is_time { "time.diff" } else { "instant.diff" }).nontrivial(diff < 0 || diff.abs() >= (1i128 << 63) || c.largest.is_none());
+                if diff < 0 {
+                    o = o.class("negative");
+                }
+                if c.largest.is_none() {
+                    o = o.class("default-largest");
+                }
+                if diff.abs() >= (1i128 << 63) {
+                    o = o.class("|diff|>=2^63ns");
+                }
+                let st = diff_settings(c.largest.map(unit), None, None, None);
+                let r = match c.op {
+                    Op::TimeUntil => plain_time(c.a).unwrap().until(&plain_time(c.b).unwrap(), st),
+                    Op::TimeSince => plain_time(c.a).unwrap().since(&plain_time(c.b).unwrap(), st),
+                    Op::InstantUntil => Instant::try_new(c.a).unwrap().until(&Instant::try_new(c.b).unwrap(), st),
+                    _ => Instant::try_new(c.a).unwrap().since(&Instant::try_new(c.b).unwrap(), st),
+                };
+                let wf = want.to_f64s();
+                match r {
+                    Ok(d) => {
+                        let got = duration_fields(&d);
+                        chk!(o, fields_eq(&got, &wf), "C06/diff/mismatch", wf, got);
+                    }
+                    Err(e) => {
+                        if reported_valid(&want) || e.kind() != ErrorKind::Range {
+                            o = o.fail("C06/diff/error", format!("{wf:?}"), err_str(&e));
+                        } else {
+                            o = o.class("leaves-duration-range");
+                        }
+                    }
+                }
+            }
+            Op::EpochMs => {
+                let i = Instant::try_new(c.a).expect("valid instant");
+                let want = c.a.div_euclid(1_000_000);
+                o = o.class("epoch-ms").nontrivial(c.a < 0 && c.a.rem_euclid(1_000_000) != 0);
+                if c.a < 0 && c.a.rem_euclid(1_000_000) != 0 {
+                    o = o.class("negative-with-sub-ms");
+                }
+                chk!(o, i.epoch_milliseconds() as i128 == want, "C06/epoch_milliseconds/mismatch", want, i.epoch_milliseconds());
+                // from_epoch_milliseconds round trip (ms taken from b, any i64-ish value)
+                let ms = c.b;
+                let in_range = instant_in_range(ms * 1_000_000);
+                match Instant::from_epoch_milliseconds(ms as i64) {
+                    Ok(x) => {
+                        chk!(o, in_range, "C06/from_epoch_milliseconds/accepted-out-of-range", "RangeError", x.as_i128());
+                        chk!(o, x.epoch_milliseconds() as i128 == ms && x.as_i128() == ms * 1_000_000, "C06/from_epoch_milliseconds/round-trip", ms, x.epoch_milliseconds());
+                    }
+                    Err(e) => chk!(o, !in_range && e.kind() == ErrorKind::Range, "C06/from_epoch_milliseconds/error", ms, err_str(&e)),
+                }
+            }
+        }
+        o
+    }
+}
+
+fn case() -> BoxedStrategy<Case> {
+    let zero = Dur::zero();
+    let time_add = (gen::ns_of_day(), gen::valid_time_dur(), prop::bool::ANY).prop_map(move |(a, dur, sub)| Case { op: if sub { Op::TimeSubtract } else { Op::TimeAdd }, a, b: 0, dur, largest: None });
+    // instants: result near the limits on purpose
+    let inst_add = (gen::instant_ns(), gen::valid_time_dur(), prop::bool::ANY, 0u8..4, -2i128..=2).prop_map(move |(a, dur, sub, k, d)| {
+        // k == 0: choose the duration so that the exact sum lands within 2 ns of a limit
+        let mut dur = dur;
+        if k == 0 {
+            let target = if a >= 0 { MAX_INSTANT + d } else { -MAX_INSTANT + d };
+            let need = if sub { a - target } else { target - a };
+            let mut f = [0i128; 10];
+            // split into seconds + ns so that both are exact doubles
+            f[6] = need / 1_000_000_000;
+            f[9] = need % 1_000_000_000;
+            let cand = Dur { f };
+            if cand.valid() && cand.to_f64s().iter().zip(cand.f.iter()).all(|(x, y)| *x as i128 == *y) {
+                dur = cand;
+            }
+        }
+        Case { op: if sub { Op::InstantSubtract } else { Op::InstantAdd }, a, b: 0, dur, largest: None }
+    });
+    let inst_date = (gen::instant_ns(), 0usize..4, 1i128..=5, prop::bool::ANY, gen::valid_time_dur()).prop_map(|(a, idx, v, neg, t)| {
+        let mut f = t.f;
+        let s = if neg { -1 } else { 1 };
+        if (t.sign() < 0) != neg {
+            for x in f.iter_mut() {
+                *x = -*x;
+            }
+        }
+        f[idx] = s * v;
+        Case { op: Op::InstantAddDateUnits, a, b: 0, dur: Dur { f }, largest: None }
+    }).prop_filter("valid", |c| c.dur.valid());
+    let largest = prop_oneof![1 => Just(None), 6 => gen::unit_in(4, 9).prop_map(Some)];
+    let time_diff = (gen::ns_of_day(), gen::ns_of_day(), largest.clone(), prop::bool::ANY).prop_map(move |(a, b, largest, since)| Case { op: if since { Op::TimeSince } else { Op::TimeUntil }, a, b, dur: zero, largest });
+    let inst_diff = (gen::instant_ns(), gen::instant_ns(), largest, prop::bool::ANY, prop::bool::ANY).prop_map(move |(a, b, largest, since, near)| {
+        let b = if near { (a + (b % 100_000_000_000_000)).clamp(-MAX_INSTANT, MAX_INSTANT) } else { b };
+        Case { op: if since { Op::InstantSince } else { Op::InstantUntil }, a, b, dur: zero, largest }
+    });
+    let ms = (gen::instant_ns(), prop_oneof![(-8_640_000_000_000_003i128..=8_640_000_000_000_003), (-3i128..=3), (0i128..=3).prop_map(|k| 8_640_000_000_000_000 - k), (0i128..=3).prop_map(|k| -8_640_000_000_000_000 + k), (i64::MIN as i128..=i64::MAX as i128)])
+        .prop_map(move |(a, b)| Case { op: Op::EpochMs, a, b, dur: zero, largest: None });
+    prop_oneof![3 => time_add, 3 => inst_add, 1 => inst_date, 2 => time_diff, 3 => inst_diff, 2 => ms].boxed()
+}
+
+pub fn run(ctx: &mut Ctx) {
+    ctx.rule = "generated ops: PlainTime add/subtract of any valid time duration (fields up to 2^53 s worth, far above 2^63 ns) == (ns + exact total) mod 86400e9; Instant add/subtract == exact sum, RangeError iff outside +-8.64e21 (a quarter of the cases are steered to land within 2 ns of a limit), RangeError for any non-zero date field; until/since of times and instants == exact difference balanced to the largest unit (6 time units + default); epoch_milliseconds == floor(ns / 1e6) and from_epoch_milliseconds round trip incl. limits. non-trivial = |total| >= 2^63 ns, wrap across midnight, negative, within 1 ns of a limit, default largest unit, negative instant with sub-ms part.".into();
+    ctx.assumptions = vec!["PlainTime.add of durations with date fields is not judged (Temporal ignores them, the crate rejects them; outside the statement)".into()];
+    ctx.run_prop(&Sub, &case, ctx.tier.pick(1_500_000, 40_000_000));
+}
+
+pub fn replay(ctx: &mut Ctx, sub: &str, case: &Value) -> bool {
+    match sub {
+        "ops" => ctx.replay_case(&Sub, case),
+        _ => false,
+    }
 }
